@@ -28,6 +28,17 @@ from . import canon
 from .seeds import derive
 
 
+import os as _os
+
+from .boot import SRC as _SRC
+
+_SRC_PREFIX = _os.path.join(_os.path.realpath(_SRC), "votekit") + _os.sep
+
+
+def in_votekit(filename):
+    return filename.startswith(_SRC_PREFIX)
+
+
 class RoundBudgetExceeded(BaseException):
     pass
 
@@ -83,7 +94,7 @@ def _site():
     f = sys._getframe(2)
     while f is not None:
         fn = f.f_code.co_filename
-        if "votekit" in fn and "votesim" not in fn:
+        if fn.startswith(_SRC_PREFIX):
             mod = fn.rsplit("/", 1)[-1][:-3]
             return f"{mod}.{f.f_code.co_name}"
         f = f.f_back
@@ -134,6 +145,7 @@ class Seam:
             "out": out,
             "nt": bool(nontrivial),
             "ctx": list(self.ctx[-1]) if self.ctx else None,
+            "octx": list(self.ctx[0]) if self.ctx else None,
             "depth": len(self.ctx),
         }
         if self.log_populations:
@@ -579,7 +591,7 @@ def quiet():
 def innermost_votekit_frame(exc):
     import traceback
 
-    frames = [t for t in traceback.extract_tb(exc.__traceback__) if "/votekit/" in t.filename and "votesim" not in t.filename]
+    frames = [t for t in traceback.extract_tb(exc.__traceback__) if t.filename.startswith(_SRC_PREFIX)]
     if not frames:
         return "?"
     t = frames[-1]
